@@ -33,7 +33,9 @@ open ShootVerif ShootVerif.DetOrder ShootVerif.GenState
 
 /-- headline: on well-formed inputs the composed run does not depend on the iteration orders -/
 theorem C07_order_indep (o₁ o₂ : Oracle) (i : Input) (h : DetOrder.WF i) : run o₁ i = run o₂ i := by
-  obtain ⟨⟨hAlias, hHdr, hKv, hTab, hOut, hPass⟩, hGo, hInj, hSingle⟩ := h
+  obtain ⟨⟨_, hHdr, hKv, hTab, hOut, hPass⟩, hGo, hInj, hSingle⟩ := h
+  unfold aliasInjective at hInj
+  unfold singleDecl at hSingle
   have perm2 : ∀ {α : Type} (s : String) (l : List α), (o₁.order s l).Perm (o₂.order s l) :=
     fun s l => (o₁.perm s l).trans (o₂.perm s l).symm
   have nodup1 : ∀ {ν : Type} (s : String) (l : Entries String ν), (keys l).Nodup → (keys (o₁.order s l)).Nodup :=
@@ -49,38 +51,19 @@ theorem C07_order_indep (o₁ o₂ : Oracle) (i : Input) (h : DetOrder.WF i) : r
   have e2 : realPathParams (o₁.order "cookClient/asMap" i.alias) i.pathParams
       = realPathParams (o₂.order "cookClient/asMap" i.alias) i.pathParams := by
     apply realPathParams_perm (perm2 _ _)
-    exact (List.Perm.nodup_iff ((o₁.perm "cookClient/asMap" i.alias).map (·.2))).mpr hInj
+    exact (List.Perm.nodup_iff ((o₁.perm "cookClient/asMap" i.alias).map (fun x => x.2))).mpr hInj
   -- parseHeaders
-  have e3 : (fun k => get (putAll (o₁.order "parseHeaders/kvMap" i.kv) []) k)
-      = (fun k => get (putAll (o₂.order "parseHeaders/kvMap" i.kv) []) k) := by
+  have e3 : (fun k => DetOrder.get (putAll (o₁.order "parseHeaders/kvMap" i.kv) []) k)
+      = (fun k => DetOrder.get (putAll (o₂.order "parseHeaders/kvMap" i.kv) []) k) := by
     funext k
     exact putAll_perm (perm2 _ _) (nodup1 _ _ hKv) [] k
   -- headers × DefaultHeaders
-  have hfold : ∀ (hs : Entries String String) (T : Entries String (Entries String String)),
-      hs.foldl (fun tabs e => eachTable tabs e.1 e.2) T = T.map (fun t => (t.1, putAll hs t.2)) := by
-    intro hs
-    induction hs with
-    | nil => intro T; simp [putAll]
-    | cons e hs ih =>
-      intro T
-      simp only [List.foldl_cons, ih, eachTable, List.map_map, putAll]
-      rfl
-  have hget : ∀ (hs : Entries String String) (T : Entries String (Entries String String)) (verb : String),
-      get (T.map (fun t => (t.1, putAll hs t.2))) verb = (get T verb).map (putAll hs) := by
-    intro hs T verb
-    induction T with
-    | nil => simp [get]
-    | cons t T ih =>
-      simp only [get, List.map_cons, List.find?_cons] at *
-      by_cases ht : t.1 = verb
-      · simp [ht]
-      · simp only [ht, decide_false]; exact ih
-  have e4 : (fun verb key => (get (hdrTables o₁ i) verb).bind (fun tab => get tab key))
-      = (fun verb key => (get (hdrTables o₂ i) verb).bind (fun tab => get tab key)) := by
+  have e4 : (fun verb key => (DetOrder.get (hdrTables o₁ i) verb).bind (fun tab => DetOrder.get tab key))
+      = (fun verb key => (DetOrder.get (hdrTables o₂ i) verb).bind (fun tab => DetOrder.get tab key)) := by
     funext verb key
-    simp only [hdrTables, hfold, hget]
+    simp only [hdrTables, foldl_eachTable, get_map_putAll]
     rw [get_perm (perm2 "cookClient/DefaultHeaders" i.tables) (nodup1 _ _ hTab)]
-    cases get (o₂.order "cookClient/DefaultHeaders" i.tables) verb with
+    cases DetOrder.get (o₂.order "cookClient/DefaultHeaders" i.tables) verb with
     | none => rfl
     | some tab =>
       simp only [Option.map_some, Option.bind_some]
@@ -94,37 +77,29 @@ theorem C07_order_indep (o₁ o₂ : Oracle) (i : Input) (h : DetOrder.WF i) : r
   have e6 : covered (o₁.order "neverWriteCheck" i.writeSet) i.coverTest
       = covered (o₂.order "neverWriteCheck" i.writeSet) i.coverTest := covered_perm (perm2 _ _) _
   -- nilCheckWrite
-  have hpasses := passes_equiv
-    (i.passes.zipIdx.map (fun p => (p.1.1, o₁.order ("nilCheckWrite/" ++ toString p.2) p.1.2, o₂.order ("nilCheckWrite/" ++ toString p.2) p.1.2)))
-    (by
-      intro p hp
-      rw [List.mem_map] at hp
-      obtain ⟨q, hq, rfl⟩ := hp
-      have hq' : q.1 ∈ i.passes := by
-        have := List.mem_zipIdx hq
-        simpa using List.getElem_mem this.2.1 |> fun h => this.2.2 ▸ h
-      exact ⟨perm2 _ _, nodup1 _ _ (hPass q.1 hq')⟩)
+  have hpasses := passes_equiv (fun p : String × (String → Bool) × Entries String String => p.2.1)
+    (fun p => o₁.order ("nilCheckWrite/" ++ p.1) p.2.2) (fun p => o₂.order ("nilCheckWrite/" ++ p.1) p.2.2)
+    i.passes (fun p hp => ⟨perm2 _ _, nodup1 _ _ (hPass p hp)⟩)
     {} {} ⟨List.Perm.refl _, List.Perm.refl _, List.nodup_nil, fun _ => rfl⟩
-  simp only [List.map_map, Function.comp_def] at hpasses
-  have e7 : (ptrPaths (i.passes.zipIdx.map (fun p => (p.1.1, o₁.order ("nilCheckWrite/" ++ toString p.2) p.1.2)))).1
-      = (ptrPaths (i.passes.zipIdx.map (fun p => (p.1.1, o₂.order ("nilCheckWrite/" ++ toString p.2) p.1.2)))).1 := by
+  have e7 : (ptrPaths (i.passes.map (fun p => (p.2.1, o₁.order ("nilCheckWrite/" ++ p.1) p.2.2)))).1
+      = (ptrPaths (i.passes.map (fun p => (p.2.1, o₂.order ("nilCheckWrite/" ++ p.1) p.2.2)))).1 := by
     simp only [ptrPaths]
     exact sortStrings_perm hpasses.list
-  have e8 : (fun k => get (ptrPaths (i.passes.zipIdx.map (fun p => (p.1.1, o₁.order ("nilCheckWrite/" ++ toString p.2) p.1.2)))).2 k)
-      = (fun k => get (ptrPaths (i.passes.zipIdx.map (fun p => (p.1.1, o₂.order ("nilCheckWrite/" ++ toString p.2) p.1.2)))).2 k) := by
+  have e8 : (fun k => DetOrder.get (ptrPaths (i.passes.map (fun p => (p.2.1, o₁.order ("nilCheckWrite/" ++ p.1) p.2.2)))).2 k)
+      = (fun k => DetOrder.get (ptrPaths (i.passes.map (fun p => (p.2.1, o₂.order ("nilCheckWrite/" ++ p.1) p.2.2)))).2 k) := by
     funext k
     simp only [ptrPaths]
     exact hpasses.get k
   -- the writes
-  have e9 : (fun n => get (writeAll (o₁.order "main/srcMap" i.outputs) i.dir) n)
-      = (fun n => get (writeAll (o₂.order "main/srcMap" i.outputs) i.dir) n) := by
+  have e9 : (fun n => DetOrder.get (writeAll (o₁.order "main/srcMap" i.outputs) i.dir) n)
+      = (fun n => DetOrder.get (writeAll (o₂.order "main/srcMap" i.outputs) i.dir) n) := by
     funext n
     exact putAll_perm (perm2 _ _) (nodup1 _ _ hOut) i.dir n
   simp only [run, e1, e2, e3, e4, e5, e6, e7, e8, e9]
 
 /-- what is read back after the writes is exactly the generated content (and untouched files stay) -/
 theorem C07_writes (ord dir : Entries String String) (h : (keys ord).Nodup) (n : String) :
-    get (writeAll ord dir) n = (get ord n).orElse (fun _ => get dir n) := get_putAll h dir n
+    DetOrder.get (writeAll ord dir) n = (DetOrder.get ord n).orElse (fun _ => DetOrder.get dir n) := get_putAll h dir n
 
 /-- headline (second tie): every `range` over a map in the CURRENT source has an order-independence argument or
     is listed as conditional (finding region / outside the input domain), and the table has no stale entry -/
@@ -174,83 +149,28 @@ theorem C07_F_msgOrder_witness :
     same result – so adding, removing or changing generated files (of any sub-command) that do not declare such
     an interface cannot change the output. -/
 theorem C07_stale_indep (lk : Leaks) (fl : NFlags) (f₁ f₂ : Disk) (st : NSt) (t : NType)
-    (h : ∀ e ∈ ((onceAux ((Ctor.flatten t.tree).filter (fun f => !f.isShadowed)) []).filter (·.isEmbeded)).map (·.name),
+    (h : ∀ e ∈ embedsOf t,
       lookupIface f₁ (e ++ "Getter") = lookupIface f₂ (e ++ "Getter") ∧
       lookupIface f₁ (e ++ "Setter") = lookupIface f₂ (e ++ "Setter")) :
-    newStep lk fl f₁ st t = newStep lk fl f₂ st t := by
-  have hi : ∀ (on : Bool) (sfx : String) (hs : sfx = "Getter" ∨ sfx = "Setter"),
-      embedIfaces on f₁ sfx (((onceAux ((Ctor.flatten t.tree).filter (fun f => !f.isShadowed)) []).filter (·.isEmbeded)).map (·.name))
-      = embedIfaces on f₂ sfx (((onceAux ((Ctor.flatten t.tree).filter (fun f => !f.isShadowed)) []).filter (·.isEmbeded)).map (·.name)) := by
-    intro on sfx hs
-    simp only [embedIfaces]
-    cases on with
-    | false => rfl
-    | true =>
-      simp only [↓reduceIte]
-      apply List.filterMap_congr
-      intro e he
-      rcases hs with rfl | rfl
-      · rw [(h e he).1]
-      · rw [(h e he).2]
-  have ha : ∀ sw, embedAccs sw f₁ (((onceAux ((Ctor.flatten t.tree).filter (fun f => !f.isShadowed)) []).filter (·.isEmbeded)).map (·.name))
-      = embedAccs sw f₂ (((onceAux ((Ctor.flatten t.tree).filter (fun f => !f.isShadowed)) []).filter (·.isEmbeded)).map (·.name)) := by
-    intro sw
-    simp only [embedAccs]
-    apply List.flatMap_congr
-    intro e he
-    rw [(h e he).1, (h e he).2]
-  simp only [newStep, hi _ "Getter" (Or.inl rfl), hi _ "Setter" (Or.inr rfl), ha]
+    newStep lk fl f₁ st t = newStep lk fl f₂ st t := newStep_files_congr lk fl f₁ f₂ st t h
 
 /-- `map`, `enum`, `rest` never read generated files: their steps ignore the directory altogether, so every
-    history (repeat, stale output, deleted output) gives the same run -/
+    history (repeat, stale output, deleted output) gives the same run.
+    Partial: for `new` the whole-run fixpoint is shown by the correspondence only (regions WF / F_embedderFirst). -/
 theorem C07_fixpoint_partial (lk : Leaks) (d₁ d₂ : Disk) :
     (∀ ts, generate (mapMachine lk) d₁ ts = generate (mapMachine lk) d₂ ts) ∧
-    (∀ ts, generate simpleMachine d₁ ts = generate simpleMachine d₂ ts) := by
-  have key : ∀ {σ τ ω : Type} (m : Machine σ τ ω), (∀ f f' s t, m.step f s t = m.step f' s t) →
-      ∀ (ts : List τ) (ls : LoopSt σ τ ω), loop m d₁ ls ts = loop m d₂ ls ts := by
-    intro σ τ ω m hm ts
-    induction ts with
-    | nil => intro ls; rfl
-    | cons t ts ih =>
-      intro ls
-      have hi : ∀ last, iter m d₁ ls t last = iter m d₂ ls t last := by
-        intro last
-        simp only [iter, hm (effective d₁ ls.overlay) (effective d₂ ls.overlay)]
-      cases ts with
-      | nil => simp only [loop, hi]
-      | cons t' ts' => simp only [loop, hi]; exact ih _
-  constructor
-  · intro ts
-    simp only [generate]
-    rw [key (mapMachine lk) (fun _ _ _ _ => rfl)]
-  · intro ts
-    simp only [generate]
-    rw [key simpleMachine (fun _ _ _ _ => rfl)]
+    (∀ ts, generate simpleMachine d₁ ts = generate simpleMachine d₂ ts) :=
+  ⟨generate_disk_irrelevant (mapMachine lk) (fun _ _ _ _ => rfl) d₁ d₂,
+   generate_disk_irrelevant simpleMachine (fun _ _ _ _ => rfl) d₁ d₂⟩
 
-/-- a run whose every type is free of embedded structs is a fixpoint for `new` as well (nothing is looked up) -/
+/-- a type free of embedded structs looks nothing up: its `new` output is the same over any directory -/
 theorem C07_fixpoint_noembed (lk : Leaks) (fl : NFlags) (d₁ d₂ : Disk) (st : NSt) (t : NType)
     (h : (Ctor.flatten t.tree).all (fun f => !f.isEmbeded) = true) :
     newStep lk fl d₁ st t = newStep lk fl d₂ st t := by
   apply C07_stale_indep
+  rw [embedsOf_nil t h]
   intro e he
-  exfalso
-  rw [List.mem_map] at he
-  obtain ⟨f, hf, _⟩ := he
-  rw [List.mem_filter] at hf
-  have hsub : (onceAux ((Ctor.flatten t.tree).filter (fun f => !f.isShadowed)) []).Sublist (Ctor.flatten t.tree) := by
-    have h1 : ∀ (l : List Ctor.Field) (seen : List String), (onceAux l seen).Sublist l := by
-      intro l
-      induction l with
-      | nil => intro _; simp [onceAux]
-      | cons a l ih =>
-        intro seen
-        simp only [onceAux]
-        split
-        · exact (ih seen).cons a
-        · exact (ih _).cons₂ a
-    exact (h1 _ _).trans List.filter_sublist
-  have := List.all_eq_true.mp h f (hsub.subset hf.1)
-  simp [hf.2] at this
+  cases he
 
 def hE : NType :=
   { name := "E", file := "t.shootnew.e.go", gs := [("name", true, true)], tree := .field { name := "name", ptype := "string" } .nil }
@@ -293,11 +213,11 @@ def xInput : Input :=
     tables := [("GET", [("Accept", "json")]), ("POST", [("Accept", "json"), ("Content-Type", "json")])],
     structFiles := [("a.go", []), ("b.go", ["Name", "Size"])], writeSet := [("Model", ()), ("ID", ())],
     coverTest := fun p => p = "Model",
-    passes := [(fun p => p = "E1" || p = "E1.EE", [("E1", "E1"), ("E2", "E2"), ("E1.EE", "EE")]), (fun p => p = "E2", [("E2", "E2"), ("E1", "E1")])],
+    passes := [("ID", fun p => p = "E1" || p = "E1.EE", [("E1", "E1"), ("E2", "E2"), ("E1.EE", "EE")]), ("B", fun p => p = "E2", [("E2", "E2"), ("E1", "E1")])],
     outputs := [("t.shootmap.a.go", "A"), ("t.shootmap.b.go", "B")], dir := [("t.go", "src")] }
 
 example : DetOrder.WF xInput := by
-  refine ⟨⟨by decide, by decide, by decide, by decide, by decide, ?_⟩, ?_, by decide, by decide⟩
+  refine ⟨⟨by decide, by decide, by decide, by decide, by decide, ?_⟩, ?_, by unfold aliasInjective; decide, by unfold singleDecl; decide⟩
   · intro p hp
     simp only [xInput, List.mem_cons, List.not_mem_nil, or_false] at hp
     rcases hp with rfl | rfl <;> decide
